@@ -60,7 +60,7 @@ def check(tier, seed):
     res = C.Result('C17', tier, seed)
     res.rule = ('CFG-GNSS block lists: every ordered subset of the 8 systems up to size 3 (quick) / all 109601 ordered subsets (thorough) plus '
                 'duplicates and absent systems, random flag words, x all systems x enable/disable and both presets, decoded from payloads; the '
-                're-encoded payload is compared with an independent block-list oracle and with the model; block lists of 10..24 entries; rates 1..10 (and 0, 11); save/reset masks '
+                're-encoded payload is compared with an independent block-list oracle and with the model; block lists of 10..24 entries; rates 1..10 (and 0, 11), fractional rates 1.000..10.000; save/reset masks '
                 'boundary + random 32-bit; reset/start/stop; lever-arm set (types x offsets at the limits, outside) and query; set_datetime incl. '
                 'leap day / year 1 / 9999 under a non-UTC host time zone; SOS backup/clear; non-trivial = helper applied to a frame with >= 1 block or a value argument')
     with C.WorkDir('C17') as wd:
@@ -153,6 +153,18 @@ def check(tier, seed):
                 cases.append(Case('rate-helper', cmd, impl, desc, domain=1 <= rate <= 10, kind='rate'))
                 if 1 <= rate <= 10 and (fr.f.measRate != 1000 // rate or fr.f.navRate != 1 or fr.f.timeRef != tref):
                     res.violation('set_rate_in_hz: measRate/navRate/timeRef not as prescribed', {'property': 'C17', 'input': desc, 'result': impl}, f'c17-rate|{rate}')
+        # fractional rates in range (1.000 .. 10.000 Hz in steps of 0.001): measRate = floor(1000 / rate) in exact arithmetic on
+        # the decimal rate, navRate = 1 (implementation-only oracle; the model covers the integer rates)
+        from fractions import Fraction
+        n_frac = 0
+        for k in (range(1000, 10001) if tier == 'thorough' else list(range(1000, 10001, 7)) + [1600, 1250, 3200, 6400, 2500, 9999, 1001]):
+            fr = RT()
+            r_ = C.guarded(lambda: (fr.set_rate_in_hz(k / 1000), (fr.f.measRate, fr.f.navRate))[1])
+            want = (int(Fraction(1000) / Fraction(k, 1000)), 1)
+            n_frac += 1
+            if r_ != want:
+                res.violation('set_rate_in_hz(fractional rate): measRate/navRate not as prescribed', {'property': 'C17', 'input': {'helper': 'set_rate_in_hz', 'rate': k / 1000}, 'expected': list(want), 'result': str(r_)}, 'c17-rate-frac')
+        res.notes['fractional_rates_checked'] = n_frac
         # CFG-CFG masks
         CF = mt['UbxCfgCfgAction']['cls']
         for m in [0, 1, 0x1F1F, 0xFFFF, 0xFFFFFFFF, 0x80000000] + [rng.getrandbits(32) for _ in range(20 if tier == 'quick' else 2000)]:
@@ -238,7 +250,7 @@ def check(tier, seed):
         res.compare(cases)
         res.oblige('correspondence helper methods (Tie A)', not res.disagreements)
         res.oblige('independent protocol oracles on the implementation', not res.violations)
-    return C.finish(res, CHECKER, ['integer rates only; datetimes within datetime.datetime\'s range'])
+    return C.finish(res, CHECKER, ['the model covers integer rates; fractional rates are checked by an implementation-only oracle; datetimes within datetime.datetime\'s range'])
 
 
 def replay(obj):
